@@ -270,8 +270,9 @@ def cbmc_group(g, cfile, scratch, tag, props=None, trace=True):
         cb += ['--unwindset', '%s:%d' % (k, v)]
     if g.get('unwindset') and g.get('unwind') is None:
         cb += ['--unwinding-assertions']
-    if g.get('solver'):
-        cb += ['--sat-solver', g['solver']]
+    solver = os.environ.get('VF_SOLVER') or g.get('solver')
+    if solver:
+        cb += ['--sat-solver', solver]
     cb += g.get('cbmc_flags', [])
     if props:
         for p in props:
